@@ -28,7 +28,7 @@ CHECKS = {
    "Trusted: the reference model in harness/c11, lib/refsig, oras-go stores as substrate.",
    "DESIGN.md section 5 C11"),
  "C07": ("E3", "model_checking",
-   "exhaustive product of sign->verify round trips through the real signing API (6 key specs x 2 formats x 4 signer kinds incl. raw-signature and envelope plugins x 11 targets x 3 metadata maps x 3 expiry durations x 2 agents; quick: RSA-3072/4096 and the 1 MiB blob on a diagonal) fed to the real verification API; equality oracle on what was signed vs what is reported + independent re-verification",
+   "exhaustive product of sign->verify round trips through the real signing API (6 key specs x 2 formats x 4 signer kinds incl. raw-signature and envelope plugins x 11 targets x 3 metadata maps x 3 expiry durations x 2 agents; quick: RSA-3072/4096 and the 1 MiB blob on a diagonal) fed to the real verification API, plus fault-then-round-trip histories (failing readers), reader shapes, signer/verifier instance reuse, and a clock-tick family through a clock seam (package signer compiled with its time import rewritten to a clock that jumps on every read); equality oracle on what was signed vs what is reported + independent re-verification",
    "Every tuple is signed by the real GenericSigner/PluginSigner (notation.SignBlob / Signer.Sign / SignOCI) and verified by the real verifier / notation.VerifyBlob / notation.Verify; payload, digest algorithm bound to the key, expiry = signing time + duration, returned blob descriptor and UserMetadata() are compared with what the generator asked to sign; lib/refsig re-verifies the bytes.",
    "Trusted: lib/refsig, the in-process scripted plugins in harness/c07. A signing error on a legal input is reported as a violation (the statement presupposes every supported key can sign).",
    "DESIGN.md section 5 C07"),
@@ -144,7 +144,7 @@ def main():
         "setup_cmd": "./setup.sh",
         "hooks": {
             "guard": "verif",
-            "enable": "no in-repo hooks: checks build /repo's working tree as it is; seams are put BELOW the code with `go build -overlay` and an import rewrite of the current sources (cmd/osrewrite): C14 compiles internal/file and verifier/crl with \"os\" rewritten to /verif/engine/osshim (scheduling points at every file-system step), C06 compiles package verifier and C15 compiles verifier/crl with \"time\" rewritten to /verif/engine/timeshim (a clock the harness moves); if an overlay build fails the harness is built without it and reports the lost part as a cap",
+            "enable": "no in-repo hooks: checks build /repo's working tree as it is; seams are put BELOW the code with `go build -overlay` and an import rewrite of the current sources (cmd/osrewrite): C14 compiles internal/file and verifier/crl with \"os\" rewritten to /verif/engine/osshim (scheduling points at every file-system step), C06 compiles package verifier, C07 package signer and C15 verifier/crl with \"time\" rewritten to /verif/engine/timeshim (a clock the harness moves or lets tick on every read); if an overlay build fails the harness is built without it and reports the lost part as a cap",
             "baseline_off_cmd": "cd /repo && GOFLAGS=-mod=mod GOPROXY=off GOSUMDB=off GOTOOLCHAIN=local go test -vet=off -count=1 -timeout 25m ./...",
             "source_commits": [],
             "add_only": True,
